@@ -71,7 +71,7 @@ Definition dispatcher_cands (path : str) (wss : list service) : list disp_cand :
       let pe := path_expression (s_root w) in
       match jsr_match (pe_toks pe) path with
       | Some (caps, fin) =>
-          [{| dc_ws := w; dc_final := fin; dc_matches := S (S (List.length caps));
+          [{| dc_ws := w; dc_final := fin; dc_matches := S (S (List.length caps)) + pe_groups pe;
               dc_literal := pe_literal pe; dc_nondef := pe_vars pe |}]
       | None => []
       end) wss.
@@ -102,7 +102,7 @@ Definition jsr_select_routes (w : service) (remainder : str) : list route_cand :
       match jsr_match (pe_toks pe) remainder with
       | Some (caps, fin) =>
           if final_ok fin then
-            [{| rc_route := r; rc_matches := S (List.length caps); rc_literal := pe_literal pe;
+            [{| rc_route := r; rc_matches := S (List.length caps) + pe_groups pe; rc_literal := pe_literal pe;
                 rc_nondef := pe_vars pe; rc_path := route_path w r |}]
           else []
       | None => []
